@@ -111,6 +111,15 @@ class TreeFn(Generic[_FnT, _T]):
       if input_argkeys:
         raise ValueError(f'Select Op cannot have kwargs, got {input_keys=}')
       object.__setattr__(self, 'fn', _identity_fn)
+    # SKIP only discards an output and a Literal only provides an input.
+    for key in self.input_keys:
+      if isinstance(key, tree.Reserved) and key == tree.Key.SKIP:
+        raise ValueError(f'SKIP cannot be used as an input key, got {input_keys=}')
+    for key in self.output_keys:
+      if isinstance(key, tree.Literal):
+        raise ValueError(
+            f'Literal cannot be used as an output key, got {output_keys=}'
+        )
 
   @functools.cached_property
   def _lazy(self):
